@@ -14,7 +14,8 @@ PROP = dict(
                               'off_from_enabled_contact', 'muted_contact_is_silent', 'gone_removes_contact', 'handshake_completes',
                               'users_of_interest_addressees', 'users_of_interest_complete',
                               'psGet_psSet_other', 'on_from_enabled_topic', 'forwardOnMe_rest', 'deliverOff_on', 'announce_converges',
-                              'off_from_enabled_topic', 'deliverOff_off', 'going_offline_converges', 'terminateTopic_off', 'unload_me_tells_contacts']],
+                              'off_from_enabled_topic', 'deliverOff_off', 'going_offline_converges', 'terminateTopic_off', 'unload_me_tells_contacts',
+                              'users_of_interest_mono', 'presDirect_off', 'evictMe_off', 'going_invisible_tells_contacts', 'becoming_visible_tells_contacts']],
     streams=[world.world_stream("C10")],
     seeds=dict(quick=1, thorough=4),
     rule="random histories of 30-120 requests per case (420 cases quick, 600 thorough per seed, every third a clause scenario with random parameters) over 4 users, 7 sessions (two per user, "
